@@ -11,6 +11,8 @@ def run(tier):
     cfg = "MC_Merge.cfg" if tier == "quick" else "MC_Merge_big.cfg"
     rep.add_model(common.design_check("MC_Merge", cfg, workers=12, timeout=3000),
                   role="design: every pair of boundary descriptors against the shipped rule tables")
+    rep.add_model(common.neg_check("MC_Merge", "Neg_Merge_loop.cfg"),
+                  role="negative: a completion loop that stops at the first boundary without an expand rule leaves boundaries open")
     rep.exhaustive = True
     th = common.tree_hash()
     wd = common.workdir("rec", th, "c09_%s_%d" % (tier, common.seed()), fresh=True)
